@@ -371,7 +371,7 @@ def extra_stage(rep, ctx):
     for f in fails[:2]:
         case = cases[f["case"]]
         kind = f["kind"]
-        small = core.shrink_case(case, lambda c2: bool(pair.fails_one(c2)) and pair.fails_one(c2)[0]["kind"] == kind)
+        small = core.shrink_case(case, lambda c2: bool(pair.fails_one(c2)) and pair.fails_one(c2)[0]["kind"] == kind, wall=60)
         ff = pair.fails_one(small)
         f2 = ff[0] if ff else f
         found = True
